@@ -79,7 +79,11 @@ def run(res, tier):
     # single deviations of the numerical options from the base run (collimator, middle current): each must leave the relation intact
     DEV = [["--InterpolateClamped", "true"], ["--InterpolationPoints", 3], ["--derivation", 3], ["--PhaseSpaceSize", 10], ["--PhaseSpaceShiftX", 2], ["--PhaseSpaceShiftY", -2], ["--alpha0", 3.5e-3],
            ["--RenormalizeCharge", 5], ["--LinearRF", "false"], ["--padding", 2], ["--InterpolationPoints", 3, "--derivation", 3],
-           ["--RoundPadding", "false", "--padding", 3.3], ["--FPTrack", 0], ["--InterpolateClamped", "true", "--InterpolationPoints", 3]]
+           ["--RoundPadding", "false", "--padding", 3.3], ["--FPTrack", 0], ["--InterpolateClamped", "true", "--InterpolationPoints", 3],
+           # a large synchronous phase (radiation loss a sizeable fraction of the RF voltage: 18 and 29 degrees), both RF models
+           # (linear RF: with the sinusoidal voltage the potential well itself is no longer q^2/2 there - its cubic term tan(phi_s) x phase-per-length x q^3/6 is 0.06 at
+           # q = 2 - and the relation as stated does not apply)
+           ["--AcceleratingVoltage", 1.5e5], ["--BeamEnergy", 2.2e9, "--AcceleratingVoltage", 0.8e6], ["--HarmonicNumber", 184, "--RevolutionFrequency", 2.7e6]]
     devs = DEV if vlib.wide(tier) else DEV[:7]
     for dv in devs:
         cases.append(("collimator", CURRENTS["collimator"][1], 64, ("Ts", 128), 2.0, 1.2, tuple(dv)))
